@@ -795,6 +795,7 @@ func (e *Engine) decidePegViolations(pa *pegAnalysis, obls []*Obligation, pathOf
 		o.Forced = "failed"
 		o.Replay = &ReplayResult{Confirmed: true, Log: sb.String(), Source: hsForReplay(w.Input)}
 		o.Output += "\nwitness: " + strconv.Quote(w.Input)
+		o.Witness = w.Input
 	}
 	e.Assumptions[fmt.Sprintf("grammar witness search: candidate inputs derived from the grammar (%d this run) are run on the real parser; an obligation without a witness is reported undecided, not proved", len(inputs))] = true
 }
